@@ -105,7 +105,7 @@ pub(crate) fn assert_buffer_inv(b: &Buffer) {
     if let Some(l) = &b.scrollback_limit {
         assert!(l.hard == l.soft.saturating_add(l.soft / 10), "[C13][C01] the hard limit is the soft limit plus 10%");
         if b.lines.len() - b.rows > l.hard {
-            assert!(b.trim_needed, "[C13][C01] exceeding the retention bound is always flagged for trimming");
+            assert!(b.trim_needed, "[C13][C01][C06] exceeding the retention bound is always flagged for trimming (so that the limit holds and the alternate screen keeps none)");
         }
     }
 }
